@@ -7,6 +7,7 @@ import (
 	"math/rand"
 	"runtime/debug"
 	"sort"
+	"strings"
 	"time"
 
 	"github.com/kelindar/column"
@@ -62,6 +63,7 @@ func RunTruncBig(seed int64, all bool) (out []Ev) {
 		c.CreateColumn("score", column.ForFloat64())
 		c.CreateColumn("name", column.ForEnum())
 		c.CreateColumn("note", column.ForString())
+		c.CreateColumn("memo", column.ForString())
 		return c
 	}
 	P := mk(nil)
@@ -91,10 +93,29 @@ func RunTruncBig(seed int64, all bool) (out []Ev) {
 		return nil
 	})
 	tail := rnd.Intn(4)
+	// every other big scenario also records ONE HUGE commit: two string buffers of more than 2 MB each for block 0 (then a
+	// small one), so that compression frames end between the update buffers of a commit - a cut there is a clean end of
+	// input in the middle of a commit
+	huge := seed%4 == 0
 	column.VerifYield = func(point string, txn *column.Txn, chunk uint32) {
 		if point == "snap.closing" {
 			for i := 0; i < tail; i++ {
 				P.QueryAt(uint32(rnd.Intn(rows)), func(r column.Row) error { r.SetString("note", fmt.Sprintf("tail-%d", i)); return nil })
+			}
+			if huge {
+				P.Query(func(txn *column.Txn) error {
+					note, memo, age := txn.String("note"), txn.String("memo"), txn.Int16("age")
+					n := 0
+					return txn.Range(func(idx uint32) {
+						if idx < 16384 {
+							note.Set(strings.Repeat(string(rune('a'+n%26)), 150))
+							memo.Set(strings.Repeat(string(rune('A'+n%26)), 150))
+							age.Set(int16(n % 50))
+							n++
+						}
+					})
+				})
+				P.QueryAt(5, func(r column.Row) error { r.SetString("note", "after-huge"); return nil })
 			}
 		}
 	}
